@@ -39,6 +39,8 @@ type myQuestion struct {
 	finishSent bool
 	releaseRes bool
 	paramCaps  []capDesc // descriptors the peer put into the params
+	pa         *myQuestion // promised-answer target (nil for import targets)
+	paDoneAtSend bool      // the target answer's implementation had already finished when this call was sent
 }
 
 type capDesc struct {
@@ -339,6 +341,7 @@ func (p *peer) moveCall() bool {
 		q.targetApp = t.imp.appID
 	} else {
 		q.target = fmt.Sprintf("pa:%d/%v", t.pa.id, t.xform)
+		q.pa = t.pa
 		if t.pa.returned {
 			p.r.s.Probe("pipelined_on_returned_answer")
 		} else {
